@@ -21,11 +21,16 @@ import (
 // concurrent callers over the caches and the buffer pool, and corrupted
 // documents / path strings (error or mask, never a panic).
 
+// Two descriptor universes registered under the same file name: the named type Bag is a map in the
+// first and a list in the second (what two services sharing an IDL path may well have).
+const c14IDLTypedef1 = "typedef map<string, string> Bag\n"
+const c14IDLTypedef2 = "typedef list<string> Bag\n"
+
 const c14IDL = `
 struct Leaf { 1: i32 A, 2: string B, 3: list<i32> L, 63: i32 Edge, 70: i64 Big, 300: string Far }
 struct Mid {
   1: Leaf X, 2: list<Leaf> Ls, 3: map<string, Leaf> SM, 4: map<i32, Leaf> IM, 5: set<string> Ss,
-  6: map<string, string> Plain, 7: list<list<Leaf>> LL, 63: Leaf Z, 64: Leaf Y
+  6: Bag Plain, 7: list<list<Leaf>> LL, 63: Leaf Z, 64: Leaf Y
 }
 struct Root {
   1: Mid M, 2: list<Mid> Ms, 3: map<string, Mid> SMM, 4: map<i64, Mid> IMM, 5: string S, 6: Leaf Lf,
@@ -48,35 +53,59 @@ type c14Field struct {
 var (
 	c14Scalar = &c14Node{kind: "scalar"}
 	c14Leaf   = &c14Node{kind: "struct", fields: []c14Field{{"A", 1, c14Scalar}, {"B", 2, c14Scalar}, {"L", 3, &c14Node{kind: "list", elem: c14Scalar}}, {"Edge", 63, c14Scalar}, {"Big", 70, c14Scalar}, {"Far", 300, c14Scalar}}}
-	c14Mid    = &c14Node{kind: "struct", fields: []c14Field{
-		{"X", 1, c14Leaf}, {"Ls", 2, &c14Node{kind: "list", elem: c14Leaf}}, {"SM", 3, &c14Node{kind: "strmap", elem: c14Leaf}},
-		{"IM", 4, &c14Node{kind: "intmap", elem: c14Leaf}}, {"Ss", 5, &c14Node{kind: "list", elem: c14Scalar}},
-		{"Plain", 6, &c14Node{kind: "strmap", elem: c14Scalar}}, {"LL", 7, &c14Node{kind: "list", elem: &c14Node{kind: "list", elem: c14Leaf}}}, {"Z", 63, c14Leaf}, {"Y", 64, c14Leaf}}}
-	c14Root = &c14Node{kind: "struct", fields: []c14Field{
-		{"M", 1, c14Mid}, {"Ms", 2, &c14Node{kind: "list", elem: c14Mid}}, {"SMM", 3, &c14Node{kind: "strmap", elem: c14Mid}},
-		{"IMM", 4, &c14Node{kind: "intmap", elem: c14Mid}}, {"S", 5, c14Scalar}, {"Lf", 6, c14Leaf}, {"M2", 100, c14Mid}, {"Last", 32767, c14Scalar}}}
-	c14Desc *thrift_reflection.TypeDescriptor
+	c14Mid  = c14MakeMid(&c14Node{kind: "strmap", elem: c14Scalar})
+	c14Mid2 = c14MakeMid(&c14Node{kind: "list", elem: c14Scalar})
+	c14Root  = c14MakeRoot(c14Mid)
+	c14Root2 = c14MakeRoot(c14Mid2)
+	c14Descs [2]*thrift_reflection.TypeDescriptor
 )
 
-func c14Descriptor() *thrift_reflection.TypeDescriptor {
-	if c14Desc != nil {
-		return c14Desc
+func c14MakeMid(plain *c14Node) *c14Node {
+	return &c14Node{kind: "struct", fields: []c14Field{
+		{"X", 1, c14Leaf}, {"Ls", 2, &c14Node{kind: "list", elem: c14Leaf}}, {"SM", 3, &c14Node{kind: "strmap", elem: c14Leaf}},
+		{"IM", 4, &c14Node{kind: "intmap", elem: c14Leaf}}, {"Ss", 5, &c14Node{kind: "list", elem: c14Scalar}},
+		{"Plain", 6, plain}, {"LL", 7, &c14Node{kind: "list", elem: &c14Node{kind: "list", elem: c14Leaf}}}, {"Z", 63, c14Leaf}, {"Y", 64, c14Leaf}}}
+}
+
+func c14MakeRoot(mid *c14Node) *c14Node {
+	return &c14Node{kind: "struct", fields: []c14Field{
+		{"M", 1, mid}, {"Ms", 2, &c14Node{kind: "list", elem: mid}}, {"SMM", 3, &c14Node{kind: "strmap", elem: mid}},
+		{"IMM", 4, &c14Node{kind: "intmap", elem: mid}}, {"S", 5, c14Scalar}, {"Lf", 6, c14Leaf}, {"M2", 100, mid}, {"Last", 32767, c14Scalar}}}
+}
+
+func c14RootOf(u int) *c14Node {
+	if u == 1 {
+		return c14Root2
 	}
-	ast, err := parser.ParseString("c14.thrift", c14IDL)
+	return c14Root
+}
+
+// c14DescriptorOf registers the IDL of universe u (once per process) and returns the root descriptor.
+func c14DescriptorOf(u int) *thrift_reflection.TypeDescriptor {
+	u &= 1
+	if c14Descs[u] != nil {
+		return c14Descs[u]
+	}
+	td := c14IDLTypedef1
+	if u == 1 {
+		td = c14IDLTypedef2
+	}
+	ast, err := parser.ParseString("c14.thrift", td+c14IDL)
 	if err != nil {
 		panic(err)
 	}
 	_, fd := thrift_reflection.RegisterAST(ast)
 	st := fd.GetStructDescriptor("Root")
-	c14Desc = &thrift_reflection.TypeDescriptor{
+	c14Descs[u] = &thrift_reflection.TypeDescriptor{
 		Filepath: st.Filepath,
 		Name:     st.Name,
 		Extra:    map[string]string{thrift_reflection.GLOBAL_UUID_EXTRA_KEY: st.Extra[thrift_reflection.GLOBAL_UUID_EXTRA_KEY]},
 	}
-	return c14Desc
+	return c14Descs[u]
 }
 
 type C14Mask struct {
+	U     int      `json:"u,omitempty"` // descriptor universe (0 or 1)
 	Paths []string `json:"paths"`
 	Black bool     `json:"black,omitempty"`
 }
@@ -111,10 +140,10 @@ type c14Driver struct{}
 
 func init() { drivers["c14"] = c14Driver{} }
 
-func c14GenPath(r *simrt.Rand, nonce string) string {
+func c14GenPath(r *simrt.Rand, nonce string, u int) string {
 	var sb strings.Builder
 	sb.WriteString("$")
-	n := c14Root
+	n := c14RootOf(u)
 	depth := 0
 	for {
 		depth++
@@ -164,7 +193,7 @@ func c14GenPath(r *simrt.Rand, nonce string) string {
 			case 1:
 				fmt.Fprintf(&sb, "{%d,%d}", r.Intn(3), 7+r.Intn(3))
 			default:
-				fmt.Fprintf(&sb, "{%d}", r.Intn(10)-2)
+				fmt.Fprintf(&sb, "{%d}", r.Intn(10))
 			}
 			n = n.elem
 		}
@@ -244,7 +273,7 @@ func c14IsPrefix(a, b []string) bool {
 }
 
 // c14Probes: prefixes of the given paths, the paths themselves, one-step extensions and siblings.
-func c14Probes(set [][]string) [][]string {
+func c14Probes(set [][]string, root *c14Node) [][]string {
 	seen := map[string]bool{}
 	var out [][]string
 	add := func(q []string) {
@@ -256,7 +285,7 @@ func c14Probes(set [][]string) [][]string {
 	}
 	for _, p := range set {
 		// walk the schema along p
-		n := c14Root
+		n := root
 		for i := 0; i <= len(p); i++ {
 			add(p[:i])
 			// siblings / extensions at this position
@@ -313,10 +342,10 @@ func (c14Driver) Gen(seed uint64, tier string) *simrt.Spec {
 	w := C14Work{Nonce: fmt.Sprintf("n%x", seed)}
 	nm := 1 + r.Intn(4)
 	for i := 0; i < nm; i++ {
-		m := C14Mask{Black: r.Chance(1, 3)}
+		m := C14Mask{Black: r.Chance(1, 3), U: r.Intn(2)}
 		np := 1 + r.Intn(6)
 		for k := 0; k < np; k++ {
-			m.Paths = append(m.Paths, c14GenPath(r, w.Nonce))
+			m.Paths = append(m.Paths, c14GenPath(r, w.Nonce, m.U))
 		}
 		// every mask carries the nonce so that documents never collide with those of other worlds (process-wide caches)
 		m.Paths = append(m.Paths, fmt.Sprintf("$.SMM{\"%s%d\"}.X.A", w.Nonce, i))
@@ -329,7 +358,7 @@ func (c14Driver) Gen(seed uint64, tier string) *simrt.Spec {
 	// answer differently (a caller reusing its buffer overwrites one with the other in place)
 	if r.Chance(1, 2) {
 		src := w.Masks[r.Intn(len(w.Masks))]
-		tw := C14Mask{Black: src.Black}
+		tw := C14Mask{Black: src.Black, U: src.U}
 		changed := false
 		for _, p := range src.Paths {
 			b := []byte(p)
@@ -423,7 +452,7 @@ func c14Answers(fm *fieldmask.FieldMask, n *c14Node, depth int, sb *strings.Buil
 
 func c14Ans(fm *fieldmask.FieldMask) string {
 	var sb strings.Builder
-	c14Answers(fm, c14Root, 0, &sb)
+	c14Answers(fm, c14Root, 0, &sb) // the probe ids of universe 0 serve for both (queries follow the mask's own type)
 	return sb.String()
 }
 
@@ -431,7 +460,9 @@ func (c14Driver) Run(spec *simrt.Spec, agg *Agg, keep bool) *Outcome {
 	var work C14Work
 	_ = json.Unmarshal(spec.Driver, &work)
 	o := &Outcome{}
-	desc := c14Descriptor()
+	// both universes are registered before any mask is built
+	c14DescriptorOf(0)
+	c14DescriptorOf(1)
 	specK := *spec
 	specK.KeepLog = true
 	w := simrt.NewWorld(&specK)
@@ -470,9 +501,21 @@ func (c14Driver) Run(spec *simrt.Spec, agg *Agg, keep bool) *Outcome {
 		for i, m := range work.Masks {
 			i, m := i, m
 			guard("NewFieldMask", func() {
+				desc := c14DescriptorOf(m.U)
+				star := false
+				for _, pth := range m.Paths {
+					if strings.Contains(pth, "*") {
+						star = true // '*' resets specific keys at its position: outside what the statement defines
+					}
+				}
 				fm, err := fieldmask.Options{BlackListMode: m.Black}.NewFieldMask(desc, m.Paths...)
 				if err != nil {
 					nErr++
+					if !star && !c14HasNegative(m.Paths) && !c14PrefixRelated(m.Paths) {
+						// the paths were generated from the schema of this universe: without '*' and without one
+						// path ending where another continues (a complete path acts like '*') nothing can conflict
+						fail("valid-paths-rejected", "valid-paths-rejected", "NewFieldMask (universe %d) rejects paths that are valid for its descriptor: %q: %v", m.U, m.Paths, err)
+					}
 					return
 				}
 				nBuilt++
@@ -484,12 +527,6 @@ func (c14Driver) Run(spec *simrt.Spec, agg *Agg, keep bool) *Outcome {
 				refs[i] = &ref{fm: fm, json: append([]byte(nil), j...), ans: c14Ans(fm)}
 				// (v) every path the mask was built from is a member of the mask (white list) /
 				// is excluded by it (black list): the weakest consequence of "answers as the paths prescribe"
-				star := false
-				for _, pth := range m.Paths {
-					if strings.Contains(pth, "*") {
-						star = true // '*' resets specific keys at its position: outside what the statement defines
-					}
-				}
 				for _, pth := range m.Paths {
 					if star {
 						break
@@ -512,7 +549,7 @@ func (c14Driver) Run(spec *simrt.Spec, agg *Agg, keep bool) *Outcome {
 						set = append(set, ex...)
 					}
 					if okAll {
-						for _, q := range c14Probes(set) {
+						for _, q := range c14Probes(set, c14RootOf(m.U)) {
 							qs := "$" + strings.Join(q, "")
 							covered, leads := false, false
 							for _, pp := range set {
@@ -684,7 +721,7 @@ func (c14Driver) Run(spec *simrt.Spec, agg *Agg, keep bool) *Outcome {
 				}
 				ps[k] = string(p)
 				guard("NewFieldMask(damaged path "+ps[k]+")", func() {
-					fm, err := fieldmask.Options{BlackListMode: work.Masks[cx.Mask].Black}.NewFieldMask(desc, ps...)
+					fm, err := fieldmask.Options{BlackListMode: work.Masks[cx.Mask].Black}.NewFieldMask(c14DescriptorOf(work.Masks[cx.Mask].U), ps...)
 					if err != nil {
 						nCorruptErr++
 						return
@@ -806,4 +843,34 @@ func firstDiff(a, b string) string {
 		return s[lo:hi]
 	}
 	return fmt.Sprintf("at %d: …%s… vs …%s…", i, cut(a), cut(b))
+}
+
+func c14HasNegative(paths []string) bool {
+	for _, p := range paths {
+		if strings.Contains(p, "{-") || strings.Contains(p, "[-") || strings.Contains(p, ",-") {
+			return true
+		}
+	}
+	return false
+}
+
+// c14PrefixRelated: some given path is a proper prefix of another (a complete
+// path settles everything beneath it, so the longer one may legitimately be refused).
+func c14PrefixRelated(paths []string) bool {
+	var set [][]string
+	for _, p := range paths {
+		ex, ok := c14Expand(p)
+		if !ok {
+			return true
+		}
+		set = append(set, ex...)
+	}
+	for i := range set {
+		for j := range set {
+			if i != j && len(set[i]) < len(set[j]) && c14IsPrefix(set[i], set[j]) {
+				return true
+			}
+		}
+	}
+	return false
 }
